@@ -465,6 +465,18 @@ def check_affine(case, ctx):
             ctx.close(np.asarray(seq0[j], dtype=float), c.p0_matrix[c.offsets[j]:c.offsets[j + 1]], tol_for(c),
                       f"circuit_vs_born_matrix_level:{c.tomo}", f"schedule {j}")
 
+    # ---- an outcome that never occurs (a projective instrument on its own eigenstate, a POVM with a zero element): the
+    #      first outcome's block is moved into the second one, which keeps the constraint, positivity, and every other
+    #      probability >= the interior ones; exact zeros are untouched by the documented truncation, so circuit == model
+    if c.tomo in ("povmt", "qmpt") and c.m >= 2:
+        blk = c.N // c.m
+        xz = c.x0.copy()
+        xz[blk:2 * blk] += xz[:blk]
+        xz[:blk] = 0.0
+        vz = var_of_stacked(c.tomo, c.n, c.m, xz) if c.flag else xz.copy()
+        ctx.label("circuit:impossible-first-outcome")
+        check_circuit_point(c, tomo, AB, vz, xz, ctx, "impossible-first-outcome")
+
     nt_dirs = c.T.shape[1]
     if nt_dirs <= full_basis_limit(case):
         dirs = [("t%d" % k, c.T[:, k]) for k in range(nt_dirs)]
